@@ -36,7 +36,7 @@ extern "C" void harness(void)
 #elif KIND == 2
   Cube p; p.draw(); const unsigned off = NV + vs_bit();
 #elif KIND == 3
-  Cube p; p.draw(); const unsigned off = vs_range(NV + 1);
+  Cube p; p.draw(); const unsigned off = pick(NV + 1);
 #endif
   MTBDD mf = f.make(ORDER);
   sameFunction(mf, f.t, 1);
@@ -59,6 +59,7 @@ extern "C" void harness(void)
   CHECK(r.GetDefaultValue() == f.dflt, 11);
   { MTBDD again = build(want, 0, ORDER ^ 1); CHECK(again == r, 12); }
   CHECK((r == mf) == want.same(f.t), 13);
+  checkPaths(r, want);
 #ifdef VS_OBSERVE
   vs_observe(decode(r).code()); vs_observe(r == mf); vs_observe(r.GetPaths().size());
 #endif
